@@ -450,6 +450,13 @@ func runC19(c *fw.Ctx, cs fw.Case) {
 			}
 			tryMoveParse(c, string(rs))
 		}
+		// promotion letters shifted beyond one byte (their low byte still spells the letter)
+		for _, l := range "qrbnQRBNkpKP" {
+			for _, off := range []rune{0x100, 0x200, 0x300, 0x2100, 0xFF00, 0x10000, 0x20000} {
+				tryMoveParse(c, "e7e8"+string(l+off))
+				tryMoveParse(c, string('e'+off)+"7e8q")
+			}
+		}
 		for _, s := range []string{"", "e2e4", "E2E4", "e7e8q", "e7e8Q", "e7e8k", "e7e8p", "e7e8 ", "e2e4\x00", "\xc3\xa92e4", "é2e4", "e2é4", "e2e4é", "ééééé", "\xff\xff\xff\xff", "\xc3\xc3\xc3\xc3\xc3"} {
 			tryMoveParse(c, s)
 		}
@@ -614,6 +621,10 @@ func moveStringsGame(c *fw.Ctx, r *rand.Rand, start ref.Pos, moves []ref.Move) {
 			cands = append(cands, s+"q", s+"n", s+" ", s[:3], s+"x", " "+s, s[2:]+s[:2])
 		} else {
 			cands = append(cands, s[:4], s[:4]+"k", s[:4]+"p", s[:4]+"K", s+"q")
+			// characters beyond one byte whose low byte spells a promotion letter
+			for _, off := range []rune{0x100, 0x200, 0x2100, 0xFF00, 0x10000} {
+				cands = append(cands, s[:4]+string(rune(s[4])+off), s[:4]+string(rune(s[4]-32)+off))
+			}
 		}
 	}
 	pseudoIllegal := map[string]bool{}
